@@ -597,6 +597,32 @@ func templateFuncs() []*wfunc {
     args.dst.write_u8?(a: b)
     args.dst.write_u8?(a: c)
 `),
+		// a nested coroutine call is re-issued after every suspension of the callee, with its
+		// arguments evaluated again: a local that is only used in the argument must be saved
+		// (liveness.go doExpr, allToStrong); the callee reads args.a before and after suspending
+		{name: "ts0", public: false, hasArgA: true, exec: true, tag: "tmpl:nested-call-arg",
+			src: `pri func t.ts0?(dst: base.io_writer, src: base.io_reader, a: base.u32) {
+    var c : base.u8
+
+    c = args.src.read_u8?()
+    args.dst.write_u8?(a: ((args.a & 0xFF) as base.u8) ^ c)
+    c = args.src.read_u8?()
+    args.dst.write_u8?(a: ((args.a >> 8) & 0xFF) as base.u8)
+    this.g1 ^= ((args.a as base.u64) << 8) | (c as base.u64)
+    if c == 0xEE {
+        return "#e2"
+    }
+}
+`},
+		mk("tcall0", "tmpl:nested-call-arg", `    var x : base.u32
+    var y : base.u32
+
+    y = args.src.read_u8_as_u32?()
+    x = args.src.read_u16le_as_u32?()
+    this.ts0?(dst: args.dst, src: args.src, a: x ~mod+ 0x0101)
+    this.ts0?(dst: args.dst, src: args.src, a: y)
+    args.dst.write_u8?(a: 0x7E)
+`),
 		// array-typed locals live across suspensions: saved and restored by memcpy (var.go
 		// writeResumeSuspend1), one template per element width
 		mk("tarr0", "tmpl:array-local", `    var a : array[4] base.u8
